@@ -1,20 +1,28 @@
 #!/venv/bin/python
-"""Development aid (not registered in MANIFEST): apply each seeded change under seeded/<name>/ to /repo,
-run the pinned baseline (optional), the demonstration and the property's quick check, undo the change.
+"""Development aid (not registered in MANIFEST): apply each seeded change under seeded/<name>/ to a copy of
+/repo, run the pinned baseline (optional), the demonstration and the property's quick check, undo the change.
 By default the change is applied to a scratch copy of /repo's HEAD (selected with ASYNKIT_REPO) so
-that checks running concurrently against /repo are not disturbed; --in-place applies it to /repo
-itself (git apply ... git checkout -- .), which is how the registered checks are meant to be used.
-usage: tools/run_seeded.py [--baseline] [--in-place] [name ...]"""
-import json, subprocess, sys, os
+that checks running concurrently against /repo are not disturbed, several changes at a time (-j N);
+--in-place applies it to /repo itself (git apply ... git checkout -- .), one at a time, which is how
+the registered checks are meant to be used.
+usage: tools/run_seeded.py [--baseline] [--in-place] [-j N] [name ...]"""
+import json, os, re, shutil, subprocess, sys, tempfile
+from concurrent.futures import ThreadPoolExecutor
 from pathlib import Path
 ROOT = Path(__file__).resolve().parent.parent
-args = [a for a in sys.argv[1:] if not a.startswith("--")]
-base = "--baseline" in sys.argv
-inplace = "--in-place" in sys.argv
-import shutil, tempfile
+argv = sys.argv[1:]
+jobs = 5
+if "-j" in argv:
+    i = argv.index("-j"); jobs = int(argv[i + 1]); del argv[i:i + 2]
+args = [a for a in argv if not a.startswith("--")]
+base = "--baseline" in argv
+inplace = "--in-place" in argv
+if inplace:
+    jobs = 1
 names = args or sorted(p.name for p in (ROOT / "seeded").iterdir() if (p / "patch.diff").exists())
-rows = []
-for n in names:
+
+
+def one(n):
     d = ROOT / "seeded" / n
     meta = json.loads((d / "meta.json").read_text())
     prop = meta["property"]
@@ -27,10 +35,9 @@ for n in names:
                        ["git", "-C", "/repo", "apply", str(d / "patch.diff")],
                        capture_output=True, text=True, cwd=target)
     if r.returncode:
-        rows.append((n, prop, "PATCH DOES NOT APPLY", "", ""))
         if not inplace:
             shutil.rmtree(target, ignore_errors=True)
-        continue
+        return (n, prop, "PATCH DOES NOT APPLY", "", "")
     env = dict(os.environ, PYTHONPATH=f"{target}/src")
     scratch_out = tempfile.mkdtemp(prefix="seeded_out_", dir="/tmp")
     env["VERIF_EVIDENCE_DIR"] = scratch_out
@@ -47,32 +54,37 @@ for n in names:
                 r2 = subprocess.run(["/venv/bin/python", "-m", "pytest", "-q", "-p", "no:cacheprovider", "--timeout=900",
                                      "--continue-on-collection-errors"],
                                     cwd=target, env=env, capture_output=True, text=True)
-                import re
                 m = re.search(r"(\d+) passed", r2.stdout)
                 ok = bool(m) and int(m.group(1)) >= 261
             b = "baseline ok" if ok else "BASELINE BROKEN"
         demo = d / "demo.py"
         dm = ""
         if demo.exists():
-            rc = subprocess.run(["/venv/bin/python", str(demo)], capture_output=True, env=env, timeout=300).returncode
+            try:
+                rc = subprocess.run(["/venv/bin/python", str(demo)], capture_output=True, env=env, timeout=600).returncode
+            except subprocess.TimeoutExpired:
+                rc = 1
             dm = "demo fails" if rc else "DEMO PASSES"
-        c = subprocess.run([str(ROOT / "check"), prop], capture_output=True, text=True, cwd=ROOT, timeout=1800, env=env)
+        c = subprocess.run([str(ROOT / "check"), prop], capture_output=True, text=True, cwd=ROOT, timeout=3600, env=env)
         vio = [l for l in c.stdout.split("\n") if l.startswith("VIOLATION")]
         kind = "MISSED (exit %d)" % c.returncode
         if vio:
             kind = "caught: " + ("no-failing-input-found" if all("no-failing-input-found" in v for v in vio) else "concrete replay") + f" ({len(vio)} line(s))"
-        rows.append((n, prop, b, dm, kind))
+        return (n, prop, b, dm, kind)
     finally:
         shutil.rmtree(scratch_out, ignore_errors=True)
         if inplace:
             subprocess.run(["git", "-C", "/repo", "checkout", "--", "."])
         else:
             shutil.rmtree(target, ignore_errors=True)
-for r in rows:
-    print(" | ".join(r))
-# remember the latest verdict per seeded change (development record, summarised in DESIGN.md §9)
+
+
 res_file = ROOT / "seeded" / "RESULTS.json"
-res = json.loads(res_file.read_text()) if res_file.exists() else {}
-for n, prop, b, dm, kind in rows:
-    res[n] = {"property_checked": prop, "baseline": b or res.get(n, {}).get("baseline", ""), "demo": dm, "check": kind}
-res_file.write_text(json.dumps(res, indent=1, sort_keys=True) + "\n")
+with ThreadPoolExecutor(jobs) as ex:
+    for row in ex.map(one, names):
+        print(" | ".join(row), flush=True)
+        # remember the latest verdict per seeded change (development record, summarised in DESIGN.md §9)
+        res = json.loads(res_file.read_text()) if res_file.exists() else {}
+        n, prop, b, dm, kind = row
+        res[n] = {"property_checked": prop, "baseline": b or res.get(n, {}).get("baseline", ""), "demo": dm, "check": kind}
+        res_file.write_text(json.dumps(res, indent=1, sort_keys=True) + "\n")
